@@ -17,7 +17,7 @@ CLASSIFIED = {
     ("Tokenizer", "_index"): "position", ("Tokenizer", "_tokens"): "position", ("Tokenizer", "_lines"): "position",
     ("Tokenizer", "_stack"): "pushback", ("Tokenizer", "_call_macro"): "flag", ("Tokenizer", "_with_macro"): "flag",
     ("Tokenizer", "_proc_macro"): "flag",
-    ("TokenizerState", "lnum"): "position", ("TokenizerState", "line"): "line", ("TokenizerState", "last_line"): "line",
+    ("TokenizerState", "lnum"): "position", ("TokenizerState", "blank_lnum"): "position", ("TokenizerState", "line"): "line", ("TokenizerState", "last_line"): "line",
     ("TokenizerState", "pos"): "line", ("TokenizerState", "max"): "line", ("TokenizerState", "parenlev"): "bracket",
     ("TokenizerState", "continued"): "line", ("TokenizerState", "indents"): "block", ("TokenizerState", "end_progs"): "mode",
     ("EndProg", "text"): "mode", ("EndProg", "contline"): "mode", ("EndProg", "upto"): "mode", ("EndProg", "start"): "mode",
